@@ -238,6 +238,76 @@ func appendsHeaderName(p *Prog, v ssa.Value, h ssa.Value, files *types.Var) bool
 	return f != nil && f.Name() == "Name"
 }
 
+// countingHelper: fn copies an entry's content into the tar writer and hands
+// the number of bytes back — (n, error) results, one copy into the writer,
+// and every return that can follow the copy's ok edge returns that copy's
+// count. The accounting duty then lies with each caller, for the call's
+// first result.
+func countingHelper(fn *ssa.Function) *ssa.Call {
+	res := fn.Signature.Results()
+	if res.Len() != 2 || !isErrorType(res.At(1).Type()) {
+		return nil
+	}
+	if b, ok := res.At(0).Type().Underlying().(*types.Basic); !ok || b.Info()&types.IsInteger == 0 {
+		return nil
+	}
+	var cp *ssa.Call
+	for _, ci := range callsTo(fn, func(o *types.Func) bool {
+		return isFunc(o, "io", "Copy") || isFunc(o, "io", "CopyN") || isFunc(o, "io", "CopyBuffer")
+	}) {
+		cl, ok := ci.(*ssa.Call)
+		if !ok {
+			return nil
+		}
+		if mi, ok := cl.Call.Args[0].(*ssa.MakeInterface); ok && isNamedPtr(mi.X.Type(), "Writer") {
+			if cp != nil {
+				return nil
+			}
+			cp = cl
+		}
+	}
+	if cp == nil {
+		return nil
+	}
+	okE, _ := okEdgesOfCall(cp)
+	if len(okE) == 0 {
+		return nil
+	}
+	after := map[*ssa.BasicBlock]bool{}
+	var work []*ssa.BasicBlock
+	for _, e := range okE {
+		if !after[e.To()] {
+			after[e.To()] = true
+			work = append(work, e.To())
+		}
+	}
+	for len(work) > 0 {
+		b := work[len(work)-1]
+		work = work[:len(work)-1]
+		for _, s := range b.Succs {
+			if !after[s] {
+				after[s] = true
+				work = append(work, s)
+			}
+		}
+	}
+	for _, r := range returnsOf(fn) {
+		if !after[r.Block()] {
+			continue
+		}
+		for _, v := range returnValues(r, 0) {
+			if v == nil {
+				return nil
+			}
+			ex, ok := canon(v).(*ssa.Extract)
+			if !ok || ex.Index != 0 || ex.Tuple != ssa.Value(cp) {
+				return nil
+			}
+		}
+	}
+	return cp
+}
+
 func ruleC20Size(c *Checker) {
 	const R = "C20.size"
 	c.rule(R, "After the ok edge of every io.Copy into the tar writer, Meta.Size grows before return by that copy's byte count; every store to Meta.Size is 'old value + count of a copy into the tar writer' (or + Size of the header just written); nothing else writes it.", 2)
@@ -254,11 +324,17 @@ func ruleC20Size(c *Checker) {
 	totalCopies := 0
 	walkFns := map[*ssa.Function]bool{}
 	var members []*walkInfo
+	// helpers that copy a body and return the count: their call sites are the copies to account for
+	counting := map[*ssa.Function]bool{}
 	for _, w := range pc.Walks {
 		for f := range p.family(w.Fn) {
 			if !walkFns[f] {
 				walkFns[f] = true
 				if f != w.Fn && len(callsTo(f, func(o *types.Func) bool { return isFunc(o, "io", "Copy") })) > 0 {
+					if countingHelper(f) != nil {
+						counting[f] = true
+						continue
+					}
 					members = append(members, &walkInfo{Fn: f})
 				}
 			}
@@ -273,6 +349,11 @@ func ruleC20Size(c *Checker) {
 			cl := ci.(*ssa.Call)
 			// destination is the tar writer
 			if mi, ok := cl.Call.Args[0].(*ssa.MakeInterface); ok && isNamedPtr(mi.X.Type(), "Writer") {
+				copies = append(copies, cl)
+			}
+		}
+		for _, ci := range callsIn(w.Fn) {
+			if cl, ok := ci.(*ssa.Call); ok && cl.Call.StaticCallee() != nil && counting[cl.Call.StaticCallee()] {
 				copies = append(copies, cl)
 			}
 		}
@@ -335,6 +416,13 @@ func ruleC20Size(c *Checker) {
 		}
 		for i, st := range storesToField(w.Fn, fv) {
 			c.check(isSizeAdd(st.Val, nil), R, wname, fmt.Sprintf("Size store %d value", i), p.Pos(st.Pos()), "Meta.Size = Meta.Size + bytes copied", "Meta.Size is assigned something other than the old value plus the bytes copied")
+		}
+	}
+	for _, h := range sortedFuncs(counting) {
+		for _, site := range p.callersOf(h) {
+			if _, plain := site.(*ssa.Call); !plain || !walkFns[site.Parent()] {
+				c.fail(R, p.FuncName(h), "caller of the copying helper", p.Pos(site.Pos()), "a helper that copies a body and returns the count is called where the count cannot be added to Meta.Size (outside the walk, or deferred)")
+			}
 		}
 	}
 	c.check(totalCopies > 0, R, "-", "body copy into the archive", "-", fmt.Sprintf("%d copy call(s) into the tar writer", totalCopies), "no io.Copy into the tar writer found")
